@@ -2,7 +2,11 @@ package metric
 
 // C08 correspondence harness: twin ManualReaders (delta / cumulative) on one MeterProvider, all instrument kinds,
 // default and view-selected aggregations, callbacks replaying the history's observations. Public API only.
-//   twin <gen> <insts> <slots> | rec j a v | obs j a v | reg k | unreg k | col … => <record> …
+//   twin <gen> <insts> <slots> | rec j a v | obs j a v | reg k | unreg k | cberr | col … => <record> …
+// cberr: every callback that runs in the next cycle returns an error AFTER making its observations (the SDK joins such
+// errors and returns them together with the collected data; header "<cycle>:<D|C>:e" = Collect returned an error).
+// gen tags ending in "+fresh" collect into a fresh ResourceMetrics each time; all others reuse ONE ResourceMetrics
+// per reader across all collections (what PeriodicReader's pool and most ManualReader users do).
 // insts: comma list of <i|f><kind><agg><cb>; kind c,u,h,g (sync) C,U,G (observable); agg - s l e x d; cb 0|1.
 // slots: comma list of digit strings (instrument indexes of one RegisterCallback), "-" = none.
 // record: "<cycle>:<D|C>;<stream>;…", stream = "<j>:<type>:<start>.<time>.<p>.<f>.<le>.<uni>:<points>".
@@ -12,6 +16,7 @@ package metric
 
 import (
 	"context"
+	"errors"
 	"fmt"
 	"math"
 	"sort"
@@ -139,6 +144,7 @@ type c08Prev struct {
 }
 
 type c08Reader struct {
+	rm   metricdata.ResourceMetrics // reused across collections unless the history asks for fresh ones
 	r    *ManualReader
 	tag  string
 	wins []c08Win
@@ -181,6 +187,14 @@ func TestVerifC08Twin(t *testing.T) {
 		defer mp.Shutdown(ctx)
 		m := mp.Meter("c08")
 		var cur []c08Obs
+		failNext := false
+		cbErr := func() error {
+			if failNext {
+				return errors.New("c08: scripted callback error")
+			}
+			return nil
+		}
+		fresh := strings.HasSuffix(gen, "+fresh")
 		recs := make([]func(a int, v int64), len(insts))
 		iobs := make([]metric.Int64Observable, len(insts))
 		fobs := make([]metric.Float64Observable, len(insts))
@@ -193,7 +207,7 @@ func TestVerifC08Twin(t *testing.T) {
 						o.Observe(ob.v, metric.WithAttributeSet(c08Set(ob.a)))
 					}
 				}
-				return nil
+				return cbErr()
 			}
 			fcb := func(_ context.Context, o metric.Float64Observer) error {
 				for _, ob := range cur {
@@ -201,7 +215,7 @@ func TestVerifC08Twin(t *testing.T) {
 						o.Observe(float64(ob.v)/256, metric.WithAttributeSet(c08Set(ob.a)))
 					}
 				}
-				return nil
+				return cbErr()
 			}
 			var iopt []metric.Int64Callback
 			var fopt []metric.Float64Callback
@@ -283,7 +297,7 @@ func TestVerifC08Twin(t *testing.T) {
 					o.ObserveFloat64(fobs[ob.j], float64(ob.v)/256, metric.WithAttributeSet(c08Set(ob.a)))
 				}
 			}
-			return nil
+			return cbErr()
 		}
 		regs := make([][]metric.Registration, len(slots))
 		t1 := time.Now()
@@ -291,9 +305,12 @@ func TestVerifC08Twin(t *testing.T) {
 		var records []string
 		cycle := 0
 		collect := func(rd *c08Reader) {
-			var rm metricdata.ResourceMetrics
+			if fresh {
+				rd.rm = metricdata.ResourceMetrics{}
+			}
+			rm := &rd.rm
 			lo := time.Now()
-			err := rd.r.Collect(ctx, &rm)
+			err := rd.r.Collect(ctx, rm)
 			hi := time.Now()
 			rd.wins = append(rd.wins, c08Win{lo, hi})
 			class := func(t time.Time) string {
@@ -308,8 +325,10 @@ func TestVerifC08Twin(t *testing.T) {
 				return "x"
 			}
 			var streams []string
+			hdr := fmt.Sprintf("%d:%s", cycle, rd.tag)
 			if err != nil {
-				streams = append(streams, "err")
+				// the data returned alongside the error is kept
+				hdr += ":e"
 			}
 			for _, sm := range rm.ScopeMetrics {
 				for _, mt := range sm.Metrics {
@@ -345,7 +364,7 @@ func TestVerifC08Twin(t *testing.T) {
 				}
 			}
 			sort.Strings(streams)
-			records = append(records, strings.Join(append([]string{fmt.Sprintf("%d:%s", cycle, rd.tag)}, streams...), ";"))
+			records = append(records, strings.Join(append([]string{hdr}, streams...), ";"))
 		}
 		atoi := func(x string) int { n, _ := strconv.Atoi(x); return n }
 		for _, op := range ops {
@@ -382,10 +401,13 @@ func TestVerifC08Twin(t *testing.T) {
 					}
 					regs[k] = regs[k][:len(regs[k])-1]
 				}
+			case "cberr":
+				failNext = true
 			case "col":
 				collect(rd)
 				collect(rc)
 				cur = nil
+				failNext = false
 				cycle++
 			}
 		}
@@ -448,6 +470,8 @@ func TestVerifC08Twin(t *testing.T) {
 	genCase := func(gen string, ni, nops int) {
 		var is []string
 		var async []int
+		signmix := strings.HasPrefix(gen, "signmix")
+		cberrGen := strings.HasPrefix(gen, "cberr")
 		for j := 0; j < ni; j++ {
 			kind := "cuhgCUGCUG"[r.Intn(10)]
 			sels := compat[kind]
@@ -458,10 +482,19 @@ func TestVerifC08Twin(t *testing.T) {
 			if r.Intn(25) == 0 {
 				sel = "-slexd"[r.Intn(6)] // possibly incompatible
 			}
+			if signmix {
+				// mostly exponential (and some explicit) histograms, on every kind of instrument
+				kind = "hhcugCG"[r.Intn(7)]
+				sel = "xxxe"[r.Intn(4)]
+			}
+			if cberrGen && j == 0 {
+				kind = "CUG"[r.Intn(3)] // at least one observable instrument
+				sel = compat[kind][r.Intn(4)]
+			}
 			cb := "0"
 			if kind >= 'A' && kind <= 'Z' {
 				async = append(async, j)
-				if r.Intn(3) == 0 {
+				if r.Intn(3) == 0 || (cberrGen && j == 0 && r.Bool()) {
 					cb = "1"
 				}
 			}
@@ -488,6 +521,19 @@ func TestVerifC08Twin(t *testing.T) {
 		istr := strings.Join(is, ",")
 		insts, slots := parse(istr, sstr)
 		nattr := 1 + r.Intn(4)
+		if signmix {
+			nattr = 1 + r.Intn(2)
+		}
+		// sign mode of the current cycle: 0 mixed, 1 negative only, 2 zero only, 3 positive only
+		mode := 0
+		newMode := func() {
+			if signmix {
+				mode = r.Intn(4)
+			} else if r.Intn(4) == 0 {
+				mode = r.Intn(4)
+			}
+		}
+		newMode()
 		val := func(float bool) string {
 			var v int64
 			switch r.Intn(5) {
@@ -497,6 +543,14 @@ func TestVerifC08Twin(t *testing.T) {
 				v = int64(r.Intn(1300)) - 20
 			default:
 				v = int64(r.Intn(120)) - 5
+			}
+			switch mode {
+			case 1:
+				v = -1 - int64(r.Intn(300))
+			case 2:
+				v = 0
+			case 3:
+				v = 1 + int64(r.Intn(1300))
 			}
 			if float {
 				v = v*64 + int64(r.Intn(3))*32
@@ -514,6 +568,10 @@ func TestVerifC08Twin(t *testing.T) {
 			x := r.Intn(100)
 			j := r.Intn(ni)
 			a := strconv.Itoa(1 + r.Intn(nattr))
+			if y := r.Intn(100); y < 3 || (cberrGen && y < 12) {
+				ops = append(ops, []string{"cberr"})
+				continue
+			}
 			switch {
 			case x < 30:
 				ops = append(ops, []string{"rec", strconv.Itoa(j), a, val(insts[j].float)})
@@ -524,6 +582,7 @@ func TestVerifC08Twin(t *testing.T) {
 				ops = append(ops, []string{"obs", strconv.Itoa(j), a, val(insts[j].float)})
 			case x < 85:
 				ops = append(ops, []string{"col"})
+				newMode()
 			case x < 93 && len(slots) > 0:
 				ops = append(ops, []string{"reg", strconv.Itoa(r.Intn(len(slots)))})
 			case len(slots) > 0:
@@ -536,7 +595,21 @@ func TestVerifC08Twin(t *testing.T) {
 		run(gen, insts, slots, istr, sstr, ops)
 	}
 	for i := 0; i < n; i++ {
-		genCase("rnd", 1+r.Intn(6), 10+r.Intn(71))
+		gen := "rnd"
+		switch r.Intn(10) {
+		case 0, 1:
+			gen = "signmix" // sign mix of the histogram inputs changes from cycle to cycle
+		case 2:
+			gen = "cberr" // failing callbacks
+		}
+		if r.Intn(5) == 0 {
+			gen += "+fresh"
+		}
+		if strings.HasPrefix(gen, "signmix") {
+			genCase(gen, 1+r.Intn(3), 15+r.Intn(50))
+		} else {
+			genCase(gen, 1+r.Intn(6), 10+r.Intn(71))
+		}
 	}
 	if os_exhaustive() {
 		for i := 0; i < n/4; i++ {
